@@ -31,6 +31,21 @@ func corpusCases(s *hlib.Suite) {
 			s.Add(fmt.Sprintf("FFilteredApply %s [] [] %s %s %s", coqFrame(in), gt1.coq(), hlib.List([]string{instr}), coqFrame(od)), desc, true)
 		}
 	}
+	// K4: FilteredApply with the built-in ToUpper on an ENUM column (the enum ToUpper ignores the row index: rows that
+	// do not match get the upper-cased source value instead of the zero/null value)
+	{
+		eb := qframe.New(map[string]types.DataSlice{"A": []int{1, 2, 3}, "E": []string{"x", "y", "z"}}, newqf.ColumnOrder("A", "E"), newqf.Enums(map[string][]string{"E": nil}))
+		ein := qframe.VerifDump(eb)
+		desc := map[string]interface{}{"op": "filteredapply", "corpus": "K4", "clause": gt1.String(), "instructions": []string{"U := ToUpper(E)"},
+			"props": []string{"C06"}, "class": "filteredapply-enum-toupper"}
+		od, ok := runOp(s, eb, desc, func() qframe.QFrame {
+			return eb.FilteredApply(gt1.goClause(), qframe.Instruction{Fn: "ToUpper", DstCol: "U", SrcCol1: "E"})
+		})
+		if ok {
+			instr := "(mkInstr (FBuiltin " + hlib.Str("ToUpper") + ") " + hlib.Str("U") + " " + hlib.Str("E") + " " + hlib.Str("") + ")"
+			s.Add(fmt.Sprintf("FFilteredApply %s [] %s %s %s %s", coqFrame(ein), upperTable(ein, od), gt1.coq(), hlib.List([]string{instr}), coqFrame(od)), desc, true)
+		}
+	}
 	// F22 (repaired): FilteredApply with a constant instruction gives the other rows the zero value
 	{
 		desc := map[string]interface{}{"op": "filteredapply", "corpus": "F22", "clause": gt1.String(), "instructions": []string{"B := const 7"}, "props": []string{"C06"}}
